@@ -263,10 +263,10 @@ func (r *SparseReal32Vector) VdivV(a, b ConstVector) Vector {
   for i := 0; i < n; i++ {
     c1 := a.ConstAt(i)
     c2 := b.ConstAt(i)
-    if c1.GetFloat64() != 0.0 || c2.GetFloat64() == 0.0 {
+    if !isNullScalar(c1) || c2.GetFloat64() == 0.0 {
       r.At(i).Div(c1, c2)
     } else {
-      if r.ConstAt(i).GetFloat64() != 0.0 {
+      if !isNullScalar(r.ConstAt(i)) {
         r.At(i).Reset()
       }
     }
